@@ -16,7 +16,7 @@ from core import term as T
 ID = "C22"
 GEN = []
 RULE = ("cases: one case = one seeded history (12..45 operations, then a read-back of every share and listing) of "
-        "allocate/write/close/abort/advance-clock/disconnect/read/list/required-ranges on 1..3 storage indexes x share "
+        "allocate/write/close/abort/advance-clock/disconnect/read/list/required-ranges (and mutable delete-vector requests on the same storage indexes) on 1..3 storage indexes x share "
         "numbers 0..4, share sizes 0..200, write ranges fresh/island/adjacent/overlapping-equal/overlapping-different/past-the-end/"
         "spanning 2-3 written pieces (all equal, or different only in the last or only in the first piece overlapped), "
         "clock steps placed on the 30 min deadlines; plus RangeMap set/delete/query sequences (shim vs interval model); "
@@ -162,6 +162,17 @@ class Impl(object):
                 return ("read", bytes(b[sh].remote_read(off, ln)))
             if k == "list":
                 return ("list", sorted(self.ss.get_buckets(si_bytes(op[1])).keys()))
+            if k == "mutdelete":
+                # a mutable read-test-write request with a delete vector (new_length = 0) for this storage
+                # index: legal for any client; removes the bucket directory when that is empty
+                from allmydata.storage.common import UnknownMutableContainerVersionError
+                _, si, sh = op
+                try:
+                    ans = self.fss.remote_slot_testv_and_readv_and_writev(
+                        si_bytes(si), (secret("enabler", 0), secret("renew", 0), secret("cancel", 0)), {sh: ([], [], 0)}, [])
+                except UnknownMutableContainerVersionError:
+                    return ("refused",)
+                return ("ok",) if ans == (True, {}) else ("error", "mutable-delete answered %r" % (ans,))
             if k == "required":
                 _, si, sh, wid = op
                 rr = self.handles[(si, sh, wid)]._bucket_writer.required_ranges()
@@ -277,6 +288,10 @@ class Ref(object):
             return [("read", s["data"][off:off + ln])]
         if k == "list":
             return [("list", self.finals(op[1]))]
+        if k == "mutdelete":
+            # no immutable upload or share is affected; with completed immutable shares in the bucket
+            # the request is refused (they are not mutable containers)
+            return [("refused",)] if self.finals(op[1]) else [("ok",)]
         if k == "required":
             _, si, sh, wid = op
             w = self.live(si, sh, wid)
@@ -301,6 +316,7 @@ ORACLE_KIND = {
     "read": "read-differs-from-written-or-visibility",
     "list": "listing-differs-from-closed-set",
     "required": "required-ranges-differ",
+    "mutdelete": "mutable-delete-request-answer-differs",
 }
 
 
@@ -319,6 +335,8 @@ def judge(ctx, op, got, acceptable, hist, where):
             kind = "consistent-write-rejected"
         elif got[0] == "wrote":
             kind = "write-finished-flag-wrong"
+    elif op[0] == "close" and got[0] == "error":
+        kind = "close-failed-upload-not-completed"
     elif op[0] == "read":
         if want and want[1] is None:
             kind = "share-visible-without-close"
@@ -393,6 +411,8 @@ def c_op(op, avail=None):
         return "OList %s" % T.N(op[1])
     if k == "required":
         return "ORequired %s %s" % (c_key(op[1], op[2]), T.N(op[3]))
+    if k == "mutdelete":
+        return None         # a request to the mutable-slot API: no operation of the immutable-store model
     raise ValueError(op)
 
 
@@ -598,12 +618,23 @@ class Gen(object):
                             (size // 2, size)])
         return ("read", si, sh, off, ln)
 
+    def mutdelete(self, ref):
+        """Mostly aimed at a storage index with uploads in progress and nothing completed yet."""
+        r = self.r
+        live = self.live(ref)
+        fresh = sorted(set(si for (si, _sh), _w in live if not ref.finals(si)))
+        if fresh and r.random() < 0.8:
+            si = r.choice(fresh)
+        else:
+            si = r.randrange(self.nsi + 1)
+        return ("mutdelete", si, r.randrange(7))
+
     def next(self, ref):
         r = self.r
         live = self.live(ref)
         for _ in range(20):
             kind = r.choice(["alloc"] * (12 if not live else 6 if len(live) < 2 else 3) + ["write"] * 28 + ["close"] * 5 + ["abort"] * 2 +
-                            ["advance"] * 3 + ["disconnect"] * 1 + ["read"] * 6 + ["list"] * 2 + ["required"] * 2)
+                            ["advance"] * 3 + ["disconnect"] * 1 + ["read"] * 6 + ["list"] * 2 + ["required"] * 2 + ["mutdelete"] * 2)
             if kind == "alloc":
                 op = self.alloc(ref)
             elif kind == "write":
@@ -618,6 +649,8 @@ class Gen(object):
                 op = self.read(ref)
             elif kind == "list":
                 op = ("list", r.randrange(self.nsi + 1))
+            elif kind == "mutdelete":
+                op = self.mutdelete(ref)
             else:
                 op = None
                 if live:
@@ -673,7 +706,8 @@ class History(object):
         self.ctx.count("op:" + op[0] + ":" + str(got[0]))
         if not judge(self.ctx, op, got, acceptable, hist, self.name):
             self.ok = False
-            return got
+            if op[0] != "close":
+                return got
         # reservation bookkeeping as the property states it
         want_alloc = self.ref.allocated()
         if alloc_now != want_alloc:
@@ -712,9 +746,11 @@ class History(object):
     def term(self):
         """Coq term: the model answers exactly as the implementation did (None if some answer
         has no model form)."""
-        ops = [c_op(o, a) for o, a in zip(self.ops, self.avails)]
+        ops = [c_op(o, a) for o, a in zip(self.ops, self.avails) if o[0] != "mutdelete"]
         exp = []
-        for got, al in self.obs:
+        for o, (got, al) in zip(self.ops, self.obs):
+            if o[0] == "mutdelete":
+                continue    # judged by the oracle only; it must not (and in the model cannot) change anything
             c = c_res(got)
             if c is None:
                 return None
@@ -867,7 +903,7 @@ def run(ctx):
         h = replay_ops(ctx, "corpus-" + name, [op_from_json(o) for o in rec["ops"]], ro=rec.get("ro", False))
         ctx.case(("corpus", name), kind="corpus-history")
         hs.append(h)
-    n = ctx.n(90, 1500)
+    n = ctx.n(75, 1500)
     for i in range(n):
         r = ctx.rng("history", i)
         ro = r.random() < 0.04
@@ -896,6 +932,6 @@ def replay(ctx, rec):
         out["model-agrees"] = not bad
         if bad:
             ctx.mismatch("model-vs-implementation-history", "model and implementation differ on the replayed history", case=case)
-            m = "observe_from %s init %s" % (T.boolean(h.ro), T.lst([c_op(o, a) for o, a in zip(h.ops, h.avails)]))
+            m = "observe_from %s init %s" % (T.boolean(h.ro), T.lst([c_op(o, a) for o, a in zip(h.ops, h.avails) if o[0] != "mutdelete"]))
             out["model"] = ctx.coq_eval(IMPORTS, m)[-3000:]
     return out
